@@ -21,7 +21,12 @@ FSStates == { [a |-> x, b |-> y, sub |-> s, c |-> z] :
                 x \in Kinds, y \in Kinds, s \in {"absent", "dir"}, z \in Kinds }
 WellFormed(fs) == fs.sub = "absent" => fs.c = "absent"
 
-OpenPaths == {"a", "b", "c", "dev", "target"}
+(* Besides these a state may hold numbered regular files /w/n/<i>-nnn... (distinct files for   *)
+(* long batches): a trace-level state has a field n (files 1..n planted), the internal state   *)
+(* has ns = the set of indices present.                                                       *)
+Internal(f) == [a |-> f.a, b |-> f.b, sub |-> f.sub, c |-> f.c, ns |-> 1..f.n]
+
+OpenPaths == {"a", "b", "c", "dev", "target"}      \* + "n" with an index (numbered file)
 Modes == {"r", "w", "rw"}     \* O_RDONLY | O_WRONLY|O_CREAT|O_TRUNC | O_RDWR|O_CREAT
 Creat(m) == m \in {"w", "rw"}
 MaxBatch == 253               \* descriptors one SCM_RIGHTS message can carry
@@ -35,15 +40,18 @@ SetKind(fs, p, k) ==
   CASE p = "a" -> [fs EXCEPT !.a = k] [] p = "b" -> [fs EXCEPT !.b = k] [] p = "c" -> [fs EXCEPT !.c = k]
     [] OTHER -> fs
 
+ItemKind(fs, it) == IF it.p = "n" THEN (IF it.idx \in fs.ns THEN "regular" ELSE "absent") ELSE KindOf(fs, it.p)
+Created(fs, it) == IF it.p = "n" THEN [fs EXCEPT !.ns = @ \cup {it.idx}] ELSE SetKind(fs, it.p, "regular")
+
 (* ---- Open: one item.  MkdirAll of the parent first (it stays even if the item fails),  *)
 (* then: a descriptor iff the path is a regular file, or is absent and the flags create;  *)
 (* a final-component symlink is never followed, nothing that is not a regular file is     *)
 (* opened (so the call cannot block), nothing is created through a dangling link.         *)
 OpenItem(fs, it) ==
   LET fs1 == IF it.mk /\ it.p = "c" /\ fs.sub = "absent" THEN [fs EXCEPT !.sub = "dir", !.c = "absent"] ELSE fs
-      k   == KindOf(fs1, it.p)
+      k   == ItemKind(fs1, it)
   IN IF k \in {"regular", "unreadable"} THEN [r |-> "fd", k |-> k, fs |-> fs1]
-     ELSE IF k = "absent" /\ Creat(it.mode) THEN [r |-> "fd", k |-> k, fs |-> SetKind(fs1, it.p, "regular")]
+     ELSE IF k = "absent" /\ Creat(it.mode) THEN [r |-> "fd", k |-> k, fs |-> Created(fs1, it)]
      ELSE [r |-> "err", k |-> k, fs |-> fs1]
 
 (* a batch is processed in order; result i belongs to item i *)
@@ -78,4 +86,5 @@ Shows(obs, fs) ==
   /\ obs.a = fs.a /\ obs.b = fs.b /\ obs.sub = fs.sub
   /\ obs.c = (IF fs.sub = "dir" THEN fs.c ELSE "absent")
   /\ obs.target = "regular" /\ obs.tdir = "dir" /\ obs.nowhere = "absent" /\ obs.dev = "device"
+ShowsN(count, fs) == count = Cardinality(fs.ns)     \* entries of /w/n
 =============================================================================
